@@ -36,7 +36,7 @@ m = {
                  "kind_free_text": "contract-based deductive verification: real function bodies of /repo executed on symbolic proxies, VCs discharged by z3 (cvc5 second opinion); bounded native stand-ins reported separately"}],
     "checks": checks,
     "not_applicable": na,
-    "notes": "exit 0: nothing explored violated the property (obligations left undecided are printed as UNDECIDED lines and listed in the evidence; exit 2 instead with PYVC_STRICT=1) / 1: VIOLATION line(s) with a replay file / 3: checker failure. Defect repairs are 'fix:' commits in /repo listed in /verif/known_findings.json (F1-F12, F15, F17: all fixed, so no KNOWN-FINDING line is printed). Catch matrix of the 180 independently written property-breaking changes and 72 behaviour-preserving refactorings: /verif/seeded/CATCH_MATRIX.md.",
+    "notes": "exit 0: nothing explored violated the property (obligations left undecided are printed as UNDECIDED lines and listed in the evidence; exit 2 instead with PYVC_STRICT=1) / 1: VIOLATION line(s) with a replay file / 3: checker failure. Defect repairs are 'fix:' commits in /repo listed in /verif/known_findings.json (F1-F12, F15, F17: all fixed, so no KNOWN-FINDING line is printed). Catch matrix of the 260 independently written property-breaking changes (seven rounds) and 92 behaviour-preserving refactorings (five rounds): /verif/seeded/CATCH_MATRIX.md; DESIGN.md 8.7 and 8.8 say which of them the checks first missed and what was built.",
 }
 json.dump(m, open(os.path.join(os.path.dirname(os.path.dirname(os.path.abspath(__file__))), "MANIFEST.json"), "w"), indent=1)
 print("checks:", [c["property_id"] for c in checks], "n/a:", len(na))
